@@ -14,13 +14,14 @@ import (
 	"github.com/cossacklabs/acra/pseudonymization/common"
 )
 
-var maintOps = []string{"tv", "tw", "rv", "dv", "dw", "disall", "disv", "en", "rmall", "rmdis"}
+var maintOps = []string{"tv", "tw", "rv", "dv", "dw", "disall", "disv", "en", "rmall", "rmdis", "rot"}
 
 var opText = map[string]string{
 	"tv": "tokenize(v) consistent", "tw": "tokenize(w) consistent", "rv": "tokenize(v) random mode",
 	"dv": "detokenize(latest token of v)", "dw": "detokenize(latest token of w)",
 	"disall": "acra-tokens disable (all)", "disv": "acra-tokens disable (limited to the records of v)",
-	"en": "acra-tokens enable (all)", "rmall": "acra-tokens remove --all", "rmdis": "acra-tokens remove (disabled only)",
+	"rot": "the owner's symmetric storage key is rotated (stacks with the encrypting wrapper)",
+	"en":  "acra-tokens enable (all)", "rmall": "acra-tokens remove --all", "rmdis": "acra-tokens remove (disabled only)",
 }
 
 // maintCfg fully determines one maintenance history (also the replay payload).
@@ -130,6 +131,7 @@ func runMaint(cfg maintCfg) (out maintOut) {
 		return false
 	}
 	var prevOps []string
+	rotated := false
 	for _, op := range cfg.Ops {
 		hist := strings.Join(append(append([]string{}, prevOps...), op), ",")
 		switch op {
@@ -280,6 +282,15 @@ func runMaint(cfg maintCfg) (out maintOut) {
 					m.cur[vi], m.hDisabled[vi] = -1, false
 				}
 			}
+		case "rot":
+			// nothing a client can observe changes: records written under the earlier keys stay
+			// readable (the key stores keep rotated keys), new records use the new key
+			if x.keys != nil {
+				x.keys.rotate(clients[0])
+			}
+			rotated = true
+			out.Obs = append(out.Obs, "rot")
+			okOps++
 		default:
 			panic("unknown op " + op)
 		}
@@ -328,6 +339,10 @@ func runMaint(cfg maintCfg) (out maintOut) {
 			}
 		}
 		out.State = modelState(m) + " | " + strings.Join(sv.Orph, " ")
+		if rotated {
+			// (what follows a rotation is explored again: the stored records are now under an older key)
+			out.State += " | rotated"
+		}
 	}
 	// another client never gets anything but the token itself
 	for vi := 0; vi < 2; vi++ {
